@@ -360,13 +360,13 @@ impl Change {
             } else {
                 old_value.version
             };
-            source_version + 1
+            source_version.saturating_add(1)
         } else if old_value.is_in_conflict_resolution() {
             old_value.version
         } else if self.version == -1 {
-            old_value.version + 1
+            old_value.version.saturating_add(1)
         } else {
-            self.version + 1
+            self.version.saturating_add(1)
         }
     }
 }
@@ -580,7 +580,7 @@ impl Database {
                             // disk, exactly as a set does
                             Some(old_value) => Value {
                                 value: next.clone(),
-                                version: old_value.version + 1,
+                                version: old_value.version.saturating_add(1),
                                 opp_id: Databases::next_op_log_id(),
                                 state: old_value.get_update_value_sate(),
                                 value_disk_addr: old_value.value_disk_addr,
@@ -694,7 +694,7 @@ impl Database {
                             self.set_value_version(
                                 &key,
                                 &String::from("<Empty>"),
-                                value.version + 1,
+                                value.version.saturating_add(1),
                                 ValueStatus::Deleted,
                                 value.value_disk_addr,
                                 value.key_disk_addr,
@@ -881,7 +881,7 @@ impl Database {
                 }
                 None => {
                     //new key, not in disk yet
-                    let new_version = change.version + 1;
+                    let new_version = change.version.saturating_add(1);
                     db.insert(
                         change.key.clone(),
                         Value {
